@@ -847,6 +847,12 @@ class World:
                 res = SV(it.fresh('res', Val), _static_ty(c.get('result_type')))
             if c.get('result_kind'):
                 it.assume(self.kind_pred(it, res.t, c['result_kind']))
+            if c.get('result_fresh'):
+                # the callee returns a newly allocated object: distinct from every object that existed before the call
+                it.assume(z3.And(V.is_ObjV(res.t), V.oid(res.t) > it.alloc_mark()))
+                it.ghost['alloc!'] = V.oid(it.refine(res.t))
+            if c.get('result_kind'):
+                pass
             elif c.get('result_type') in self.classes and not self.classes[c['result_type']].get('abstract'):
                 # a declared (non-optional) class result is an object of that class
                 it.assume(self.kind_pred(it, res.t, c['result_type']))
